@@ -69,6 +69,7 @@ type CheckCfg struct {
 
 type RunOpts struct {
 	VerifDir string
+	OutDir   string // evidence/, replays/, build/ are written here (default VerifDir); checks, harnesses and findings are always read from VerifDir
 	RepoDir  string
 	Tier     string
 	Seed     int
@@ -77,6 +78,13 @@ type RunOpts struct {
 	Verbose  int
 	Only     string
 	NoReplay bool
+}
+
+func (o RunOpts) outDir() string {
+	if o.OutDir != "" {
+		return o.OutDir
+	}
+	return o.VerifDir
 }
 
 type harnessReport struct {
@@ -411,7 +419,7 @@ type replayFile struct {
 }
 
 func writeReplay(o RunOpts, prop string, h *HarnessCfg, v *Violation) string {
-	dir := filepath.Join(o.VerifDir, "replays")
+	dir := filepath.Join(o.outDir(), "replays")
 	os.MkdirAll(dir, 0o755)
 	name := fmt.Sprintf("%s-%s-%s.json", prop, h.Func, sanitize(v.Label))
 	p := filepath.Join(dir, name)
@@ -436,7 +444,7 @@ func overlayJSON(o RunOpts, L *Loaded) (string, error) {
 		rel, _ := filepath.Rel(o.RepoDir, virt)
 		m.Replace[virt] = filepath.Join(hdir, rel)
 	}
-	dir := filepath.Join(o.VerifDir, "build")
+	dir := filepath.Join(o.outDir(), "build")
 	os.MkdirAll(dir, 0o755)
 	// native-only source patches (seams needed to replay a tape against concrete types): the current
 	// repo file is patched textually and the patched copy is mapped over the original.
@@ -536,7 +544,7 @@ func replayWitnesses(o RunOpts, L *Loaded, prop string, h *HarnessCfg, jr *JobRe
 		return 0, nil
 	}
 	// all witnesses of the harness in one native run
-	dir := filepath.Join(o.VerifDir, "replays")
+	dir := filepath.Join(o.outDir(), "replays")
 	os.MkdirAll(dir, 0o755)
 	labels := sortedKeys(jr.Reached)
 	type multi struct {
@@ -626,7 +634,7 @@ func writeEvidence(o RunOpts, cc *CheckCfg, reps []*harnessReport, wall time.Dur
 			"explanation":                   "states = symbolic paths explored by the SSA executor (each covers all inputs satisfying its path condition); transitions = solver-decided branch points; every obligation is an SMT query pc ∧ ¬assertion answered unsat",
 		},
 	}
-	dir := filepath.Join(o.VerifDir, "evidence")
+	dir := filepath.Join(o.outDir(), "evidence")
 	os.MkdirAll(dir, 0o755)
 	b, _ := json.MarshalIndent(ev, "", " ")
 	os.WriteFile(filepath.Join(dir, cc.Property+".json"), b, 0o644)
